@@ -77,13 +77,18 @@ def _work_param(item):
                 raise
             n += 1 + 2 * len(K.MODES)
             for f in fs:
-                fails.append(dict(clause=f.clause, info=f.info, wclass=P.union_wclass(pty, path, f),
+                fails.append(dict(clause=f.clause, info=f.info, wclass=P.value_wclass(pty, P.full_value(path, av)) + ('|at-or-node' if ety.prim == 'or' and path else ''),
                                   case=dict(kind='entrypoint', type=pty.expr(), entrypoint=ename, path=path, value=G.neutral(ety.anon(), av),
                                             clause=f.clause, michelson_type=pty.michelson())))
     return n, f'param|{K.skeleton(pty, 3)}|{len(eps)}', dict(parameter=pty.michelson()[:200], entrypoints=sorted(eps)), fails
 
 
-def replay(case):
+def _dispatch(tagged):
+    tag, item = tagged
+    return _work(item) if tag == 'v' else _work_param(item)
+
+
+def _replay_eval(case):
     ty = Ty.from_expr(case['type'])
     if case['kind'] == 'value':
         av = G.from_neutral(ty, case['value'])
@@ -96,6 +101,11 @@ def replay(case):
     if fs:
         return True, f'{case["michelson_type"]}: {fs[0]}'
     return False, f'{case["michelson_type"]}: contract {case["clause"]} holds on the recorded input'
+
+
+def replay(case):
+    # evaluated below an interpreter with PYTHONHASHSEED=0, like the run (see C11_core.pmap)
+    return K.pmap(_replay_eval, [case], procs=1, fixed_hash=True)[0]
 
 
 def run(ck: Check) -> int:
@@ -135,7 +145,7 @@ def run(ck: Check) -> int:
         ptypes = [t for i, t in enumerate(ptypes) if sum(1 for _ in t.walk()) <= 5 or i % 6 == 0]
     ck.bound('types', len(items))
     ck.bound('parameter_types', len(ptypes))
-    results = K.pmap(_work, items) + K.pmap(_work_param, [(t, 2 if ck.thorough() else 1) for t in ptypes], chunk=16)
+    results = K.pmap(_dispatch, [('v', it) for it in items] + [('p', (t, 2 if ck.thorough() else 1)) for t in ptypes], chunk=32, fixed_hash=True)
     seen_w = {}
     for n, cls_key, sample, fails in results:
         if n:
